@@ -384,6 +384,8 @@ class Sim:
                 sends = rule.get("sends")
                 if (sends and (rule.get("sends_jlt") is None or j < rule["sends_jlt"])
                         and (rule.get("sends_dplt") is None or dp < rule["sends_dplt"])):
+                    if rule.get("sends_repeat"):
+                        sends = list(sends) * int(rule["sends_repeat"])
                     sm = self._machine(tag, obj, loc)
                     for s in sends:
                         self._send_sync(sm, s, q, tag, loc)
@@ -461,6 +463,12 @@ class Sim:
         except BaseException as e:
             self.rec(k="ns-", r=n, out=["exc", self._describe_exc(e)])
             raise
+        if asyncio.iscoroutine(r):
+            # a plain callback of an async machine: the event was queued by the call; the coroutine it
+            # got back (the drain the running loop already performs) cannot be awaited from here
+            r.close()
+            r = None
+            self.stats["plain_sends_on_async_machine"] = self.stats.get("plain_sends_on_async_machine", 0) + 1
         self.rec(k="ns-", r=n, out=["ret", enc(r)])
         return r
 
@@ -487,6 +495,8 @@ class Sim:
                 if sends and rule.get("sends_jlt") is not None and not (j < rule["sends_jlt"]):
                     sends = None
                 if sends and not stale:
+                    if rule.get("sends_repeat"):
+                        sends = list(sends) * int(rule["sends_repeat"])
                     sm = self._machine(tag, obj, loc)
                     for s in sends:
                         await self._send_async(sm, s, q, tag, loc)
